@@ -7,6 +7,7 @@
 //	kill          kill itself with SIGKILL
 //	killout       print one well-formed issue (flushed), then kill itself with SIGKILL
 //	garbage       print text that is not the tool's output format
+//	trailing      print well-formed output followed by text that is not part of the format
 //	slow=<ms>     sleep before answering
 //	noread        exit(0) without reading stdin (shellcheck prints "[]")
 //
@@ -46,9 +47,13 @@ func main() {
 		logf, _ = os.OpenFile(p, os.O_CREATE|os.O_WRONLY|os.O_APPEND, 0o644)
 	}
 	mode := "pyflakes"
+	shell := "-"
 	for i, a := range os.Args {
 		if a == "-f" && i+1 < len(os.Args) && os.Args[i+1] == "json" {
 			mode = "shellcheck"
+		}
+		if a == "--shell" && i+1 < len(os.Args) {
+			shell = os.Args[i+1]
 		}
 	}
 	pid := os.Getpid()
@@ -73,7 +78,7 @@ func main() {
 	if m := markRe.FindSubmatch(in); m != nil {
 		spec = string(m[1])
 	}
-	issues, exit, kill, garbage, killout := 0, 0, false, false, false
+	issues, exit, kill, garbage, killout, trailing := 0, 0, false, false, false, false
 	for _, it := range strings.Split(spec, ",") {
 		kv := strings.SplitN(it, "=", 2)
 		val := 0
@@ -91,6 +96,8 @@ func main() {
 			killout = true
 		case "garbage":
 			garbage = true
+		case "trailing":
+			trailing = true
 		case "slow":
 			time.Sleep(time.Duration(val) * time.Millisecond)
 		}
@@ -123,10 +130,13 @@ func main() {
 			if i > 0 {
 				sb.WriteString(",")
 			}
-			fmt.Fprintf(&sb, `{"file":"-","line":%d,"endLine":%d,"column":%d,"endColumn":%d,"level":"warning","code":%d,"message":"fake issue %d.","fix":null}`, i+2, i+2, i+1, i+3, 2000+i, i)
+			fmt.Fprintf(&sb, `{"file":"-","line":%d,"endLine":%d,"column":%d,"endColumn":%d,"level":"warning","code":%d,"message":"fake issue %d (shell=%s).","fix":null}`, i+2, i+2, i+1, i+3, 2000+i, i, shell)
 		}
 		sb.WriteString("]")
 		fmt.Print(sb.String())
+		if trailing {
+			fmt.Print("\nshellcheck: internal error: this line is not part of the JSON output\n")
+		}
 		if issues > 0 {
 			os.Exit(1)
 		}
